@@ -358,7 +358,7 @@ def _step(draw, kind, subtype):
     if op == 'getitem_int':
         return {'op': op, 'src': src, 'i': draw(st.integers(-9, 9))}
     if op == 'subslice':
-        return {'op': 'slice', 'src': src, 'start': draw(st.integers(1, 3)), 'stop': draw(st.sampled_from([None, None, -1, 5])), 'step': None}
+        return {'op': 'slice', 'src': src, 'start': draw(st.integers(1, 9)), 'stop': draw(st.sampled_from([None, None, None, -1, 5, 12])), 'step': None}
     if op == 'slice':
         o = st.one_of(st.none(), st.integers(-8, 8))
         return {'op': op, 'src': src, 'start': draw(o), 'stop': draw(o), 'step': draw(st.sampled_from([None, None, 1, 1, 2, 3, -1, -2, -3]))}
@@ -379,7 +379,8 @@ def _step(draw, kind, subtype):
 
 @st.composite
 def _first(draw, kind, subtype):
-    n = draw(st.integers(3, 7))
+    # mostly small; sometimes long enough for validity bitmaps of several bytes and slices crossing byte boundaries
+    n = draw(st.one_of(st.integers(3, 7), st.integers(3, 7), st.integers(9, 20)))
     els = []
     for _ in range(n):
         r = draw(st.integers(0, 7))
